@@ -259,6 +259,14 @@ Inductive smode :=
 | XWhile (c : Z) (b o : list sk)
 | XFor (k : Z) (b o : list sk).     (* iterating: iterable evaluated and iter() taken already *)
 
+(* run the rest of the block only after a normal completion *)
+Definition cont_with (k : sst -> option (outcome * sst)) (r : option (outcome * sst)) : option (outcome * sst) :=
+  match r with
+  | Some (ONormal, s1) => k s1
+  | Some (o, s1) => Some (o, s1)
+  | None => None
+  end.
+
 Section Exec.
   Variable orc : nat -> bool.
 
@@ -269,11 +277,7 @@ Section Exec.
       match m with
       | XBlock [] => Some (ONormal, s)
       | XBlock (st :: rest) =>
-          let continue_with := fun (r : option (outcome * sst)) =>
-            match r with
-            | Some (ONormal, s1) => exec f (XBlock rest) s1
-            | other => other
-            end in
+          let continue_with := cont_with (fun s1 => exec f (XBlock rest) s1) in
           match st with
           | KMark k => exec f (XBlock rest) (xemit s (EMark k))
           | KPass => exec f (XBlock rest) s
